@@ -5,10 +5,11 @@
      v3_emb, v3alpha_emb     descriptors embedded in api.pb.go, read through protoreflect
      v3_proto, v3alpha_proto the same structure parsed from the api.proto text
      v3_grpc, v3alpha_grpc   Insights_ServiceDesc, FullMethodName constants, client/server interfaces
+     v3_go_enums, v3_go_structs (and v3alpha_) enum constants and protobuf struct tags of api.pb.go (go/ast)
      resolve_systems         the constants of type System of util/resolve/resolve.go
    The domain is finite and enumerated completely: each theorem is decided by evaluating a
    boolean checker in the kernel and lifted to the quantified statement by its soundness lemma. *)
-From DepsDev Require Import Lib.Base Api.Desc Api.Desc_proofs Gen.ApiDesc.
+From DepsDev Require Import Lib.Base Api.Desc Api.Desc_proofs Api.GoCode Api.GoCode_proofs Gen.ApiDesc.
 
 (* Every message (with its fields, oneofs, nested messages and enums, recursively), enum
    value, service and method of v3 exists identically in v3alpha, up to the package name
@@ -55,6 +56,15 @@ Print Assumptions C17_gen_v3.
 Theorem C17_gen_v3alpha : v3alpha_emb = v3alpha_proto.
 Proof. apply desc_eq_sound. vm_compute. reflexivity. Qed.
 Print Assumptions C17_gen_v3alpha.
+
+(* ... also below the descriptor: every enum has its Go type with exactly its constants
+   (name and number), and every message (recursively, map entries excepted) has its Go
+   struct whose protobuf tags are, in order, the ones tag.Marshal yields for its fields
+   (GoCode.gocode_spec). *)
+Theorem C17_go_code :
+  gocode_spec v3_emb v3_go_enums v3_go_structs /\ gocode_spec v3alpha_emb v3alpha_go_enums v3alpha_go_structs.
+Proof. split; apply gocode_ok_sound; vm_compute; reflexivity. Qed.
+Print Assumptions C17_go_code.
 
 (* Insights_ServiceDesc, the FullMethodName constants and the InsightsClient/InsightsServer
    interfaces list exactly the methods of the service of the descriptor (Desc.grpc_spec). *)
